@@ -26,6 +26,11 @@ type c15Scenario struct {
 	Faults  []hqFault  `json:"faults"`
 	NPages  int        `json:"n_pages"`
 	MaxHops int        `json:"max_hops"`
+	// Outage scenarios fix how many deliveries are pending while the HQ refuses a call kind: Level1Total
+	// = number of outlinks the level-0 pages carry together (nothing else can be discovered before an
+	// add succeeds), Level0Count = number of seeds handed out (with MaxHops 0 nothing else is ever queued).
+	Level1Total int `json:"level1_total,omitempty"`
+	Level0Count int `json:"level0_count,omitempty"`
 }
 
 type c15Page struct {
@@ -35,14 +40,18 @@ type c15Page struct {
 }
 
 // c15Site builds a 3-level tree of pages: level-0 pages are handed out by the queue, their anchors are level 1, etc.
-func c15Site(o *origin, seedv int64, idx, nPages, maxHops int) (level0 []string, pages map[string]*c15Page, assetsOdd []string) {
+func c15Site(o *origin, seedv int64, idx, nPages, maxHops, level1Total, level0Count int) (level0 []string, pages map[string]*c15Page, assetsOdd []string) {
 	rng := pipeRand(seedv, "c15site", idx)
 	pages = map[string]*c15Page{}
 	n := 0
-	var mk func(level int) string
-	mk = func(level int) string {
+	l1Left := level1Total
+	var mk func(level int, onHost string) string
+	mk = func(level int, onHost string) string {
 		n++
 		h := hostOf(9+n/250, 1+n%250, o.Port)
+		if onHost != "" {
+			h = onHost
+		}
 		uri := fmt.Sprintf("/l%d/p%d.html", level, n)
 		if rng.Intn(3) == 0 {
 			uri += fmt.Sprintf("?q=%d&lang=en", n)
@@ -51,9 +60,23 @@ func c15Site(o *origin, seedv int64, idx, nPages, maxHops int) (level0 []string,
 		p := &c15Page{URL: u, Hops: level}
 		pages[u] = p
 		var anchors, assets []string
-		if level < maxHops+1 {
+		anchorTexts := &anchors
+		switch {
+		case level == 0 && level1Total > 0:
+			// outage scenarios count pending deliveries exactly: the children live on the parent's host and
+			// are referenced by path, so each anchor yields one outlink (an absolute URL in a text/* body is
+			// found a second time by the crawler's aggressive link regex)
+			var texts []string
+			for k := 0; k < 1+rng.Intn(3) && l1Left > 0; k++ {
+				l1Left--
+				cu := mk(level+1, h)
+				anchors = append(anchors, cu)
+				texts = append(texts, strings.TrimPrefix(cu, "http://"+h))
+			}
+			anchorTexts = &texts
+		case level < maxHops+1:
 			for k := 0; k < 1+rng.Intn(3) && len(pages) < nPages; k++ {
-				anchors = append(anchors, mk(level+1))
+				anchors = append(anchors, mk(level+1, ""))
 			}
 		}
 		p.Outlinks = anchors
@@ -64,13 +87,24 @@ func c15Site(o *origin, seedv int64, idx, nPages, maxHops int) (level0 []string,
 		o.set(h, a2, &route{Status: 200, Headers: map[string]string{"Content-Type": "text/css"}, Body: []byte("body{}"), Tag: "asset-odd-query"})
 		assets = []string{a1, a2}
 		assetsOdd = append(assetsOdd, "http://"+h+a2)
-		o.set(h, uri, &route{Status: 200, Headers: map[string]string{"Content-Type": "text/html"}, Body: htmlPage("p", assets, anchors), Tag: fmt.Sprintf("page-l%d", level)})
+		o.set(h, uri, &route{Status: 200, Headers: map[string]string{"Content-Type": "text/html"}, Body: htmlPage("p", assets, *anchorTexts), Tag: fmt.Sprintf("page-l%d", level)})
 		return u
 	}
-	for len(pages) < nPages/3 || len(level0) < 3 {
-		level0 = append(level0, mk(0))
-		if len(level0) > nPages {
-			break
+	switch {
+	case level1Total > 0:
+		for l1Left > 0 {
+			level0 = append(level0, mk(0, ""))
+		}
+	case level0Count > 0:
+		for len(level0) < level0Count {
+			level0 = append(level0, mk(0, ""))
+		}
+	default:
+		for len(pages) < nPages/3 || len(level0) < 3 {
+			level0 = append(level0, mk(0, ""))
+			if len(level0) > nPages {
+				break
+			}
 		}
 	}
 	return
@@ -90,7 +124,7 @@ func c15Child(scPath string) int {
 		return 2
 	}
 	pr.org = org
-	level0, pages, oddAssets := c15Site(org, sc.Seed, sc.Index, sc.NPages, sc.MaxHops)
+	level0, pages, oddAssets := c15Site(org, sc.Seed, sc.Index, sc.NPages, sc.MaxHops, sc.Level1Total, sc.Level0Count)
 	var hq *fakeHQ
 	var inputSeeds []string
 	if sc.Cfg.UseHQ {
@@ -189,24 +223,33 @@ func c15Child(scPath string) int {
 					}
 				}
 			}
-			// the obligation is over the seeds Zeno actually received (hq.before_insert): a GET the HQ
-			// answered after the client had timed out claims URLs on the server that never reached the
-			// crawler, and no crawler can acknowledge those
+			// the obligation is over the seeds Zeno actually received (hq.before_insert); the HQ double
+			// does not claim URLs for a GET whose client has gone away during a stall (no crawler could
+			// acknowledge those)
 			received := map[string]string{}
 			for _, e := range evs {
 				if e.Point == "hq.before_insert" {
 					received[e.ID] = strings.SplitN(e.URL, "\t", 2)[0]
 				}
 			}
-			for id := range handed {
+			// ... and over the seeds a GET answered to a client that was still connected: a crawler that
+			// discards part of an answer it received loses those seeds for good (they stay claimed)
+			notInserted := map[string]bool{}
+			for id, u := range handed {
 				if _, ok := received[id]; !ok {
-					rep.event("seeds_claimed_by_a_get_the_client_gave_up_on", 1)
+					rep.event("seeds_answered_but_never_inserted", 1)
+					received[id] = u.Value
+					notInserted[id] = true
 				}
 			}
 			for id, u := range received {
 				rep.event("seeds_handed_out", 1)
 				if !deletedOK[id] {
-					rep.violation("finish-ack-never-delivered", fmt.Sprintf("seed %s (%s) was received from the HQ but its id is in no successful DELETE (still claimed: %d, still queued: %d)", id, u, len(claimed), queued), w)
+					how := "was received from the HQ and inserted"
+					if notInserted[id] {
+						how = "was in a GET answer delivered to the connected client but never entered the reactor, and"
+					}
+					rep.violation("finish-ack-never-delivered", fmt.Sprintf("seed %s (%s) %s its id is in no successful DELETE (still claimed: %d, still queued: %d)", id, u, how, len(claimed), queued), w)
 				}
 			}
 		}
@@ -370,6 +413,39 @@ func c15(r *vc.Run) int {
 			}
 		}
 		scs = append(scs, sc)
+	}
+	// outages: the HQ refuses every add (resp. delete) for ~22 s of sender back-off while exactly P
+	// deliveries are pending, P enumerated over the fill levels of the producer / finisher pipeline
+	// (sender + dispatcher + channel + the receiver's partial batch = 3 full batches and a rest)
+	outage := func(kind string, n int) []hqFault {
+		var fs []hqFault
+		for s := 1; s <= n; s++ {
+			fs = append(fs, hqFault{Kind: kind, N: s, What: []string{"503", "reset", "500"}[s%3]})
+		}
+		return fs
+	}
+	type lvl struct{ bs, p int }
+	var lvls []lvl
+	if r.Thorough() {
+		for p := 1; p <= 9; p++ {
+			lvls = append(lvls, lvl{2, p})
+		}
+		for p := 1; p <= 21; p++ {
+			lvls = append(lvls, lvl{5, p})
+		}
+	} else {
+		for _, p := range []int{1, 3, 5, 7, 9} {
+			lvls = append(lvls, lvl{2, p})
+		}
+	}
+	for _, l := range lvls {
+		base := pipeConfig{Workers: 1 + len(scs)%4, MaxConcurrentAssets: 2, MaxRetry: 0, MaxRedirect: 5, WARCPoolSize: 1, UseHQ: true, HQBatchSize: l.bs, HQBatchConcurrency: 1}
+		a := c15Scenario{Seed: r.Seed, Index: len(scs), NPages: 1000, MaxHops: 2, Cfg: base, Faults: outage("add", 6), Level1Total: l.p}
+		a.Cfg.MaxHops = 2
+		scs = append(scs, a)
+		d := c15Scenario{Seed: r.Seed, Index: len(scs), NPages: 1000, MaxHops: 0, Cfg: base, Faults: outage("delete", 6), Level0Count: l.p}
+		d.Cfg.MaxHops = 0
+		scs = append(scs, d)
 	}
 	m := newMerged()
 	parallel(len(scs), 14, func(i int) {
